@@ -173,3 +173,49 @@ class Report:
         if self.broken:
             return 2
         return 0
+
+
+class Import:
+    """Run another property's rules inside this report: every instance (optionally only those of some rules / matching a key filter)
+    is re-filed under one rule id of the importing property with a prefixed key; declarations and metadata of the imported
+    module are dropped.  An imported verdict is decided on the current tree like any other -- it is not a cached result."""
+
+    def __init__(self, rep, rid, prefix, only_rules=None, key_filter=None):
+        object.__setattr__(self, '_rep', rep)
+        object.__setattr__(self, '_rid', rid)
+        object.__setattr__(self, '_prefix', prefix)
+        object.__setattr__(self, '_only', set(only_rules) if only_rules else None)
+        object.__setattr__(self, '_kf', key_filter)
+        object.__setattr__(self, '_dummy', {})
+
+    def _want(self, rule, key):
+        return (self._only is None or rule in self._only) and (self._kf is None or self._kf(rule, key))
+
+    def rule(self, *a, **k):
+        pass
+
+    def add(self, rule, key, ok, where='', detail='', nontrivial=True, data=None):
+        if self._want(rule, key):
+            return self._rep.add(self._rid, '%s:%s:%s' % (self._prefix, rule, key), ok, where, detail, nontrivial, data)
+        return ok
+
+    def undecided(self, rule, key, why, where=''):
+        if self._want(rule, key):
+            return self._rep.undecided(self._rid, '%s:%s:%s' % (self._prefix, rule, key), why, where)
+
+    def analysed(self, *a, **k):
+        return self._rep.analysed(*a, **k)
+
+    def note(self, *a, **k):
+        return self._rep.note(*a, **k)
+
+    def __setattr__(self, n, v):
+        self._dummy[n] = v
+
+    def __getattr__(self, n):
+        if n in ('seed', 'tier', 'prop', 'broken'):
+            return getattr(self._rep, n)
+        d = object.__getattribute__(self, '_dummy')
+        if n not in d:
+            d[n] = {} if n == 'extra' else []
+        return d[n]
